@@ -60,7 +60,50 @@ INTCMP = re.compile(r"^<(\w+) as (PartialOrd|PartialEq|Ord)(?:<\w+>)?>::(\w+)$")
 CMPIMPL = re.compile(r"^core::cmp::impls::<impl (PartialOrd|PartialEq|Ord)(?:<\w+>)? for (\w+)>::(\w+)$")
 
 
+FLOATM = re.compile(r"^(?:core|std)::f64::<impl f64>::(\w+)$")
+
+
+def float_method(eng, st, meth, args):
+    """f64 methods on concrete doubles and on the exact-integer subset (engine.IFl)"""
+    import math
+    from .engine import FloatV, IFl
+    a = args[0]
+    if isinstance(a, FloatV):
+        x = a.v
+        fin = x == x and abs(x) != float("inf")
+        if meth == "abs":
+            return [(True, FloatV(abs(x)))]
+        if meth in ("trunc", "floor", "ceil", "round"):
+            if not fin:
+                return [(True, a)]
+            f = {"trunc": math.trunc, "floor": math.floor, "ceil": math.ceil,
+                 "round": lambda v: math.floor(abs(v) + 0.5) * (1 if v >= 0 else -1)}[meth]
+            r = float(f(x))
+            return [(True, FloatV(math.copysign(r, x) if r == 0 else r))]
+        if meth in ("is_finite", "is_nan", "is_infinite"):
+            return [(True, BoolV({"is_finite": fin, "is_nan": x != x, "is_infinite": abs(x) == float("inf")}[meth]))]
+        if meth == "signum":
+            return [(True, FloatV(x if x != x else math.copysign(1.0, x)))]
+        return None
+    if isinstance(a, IFl):
+        if meth == "abs":
+            return [(True, IFl(zsimp(z3.If(a.e < 0, -a.e, a.e))))]
+        if meth in ("trunc", "floor", "ceil", "round"):
+            return [(True, a)]
+        if meth in ("is_finite",):
+            return [(True, BoolV(True))]
+        if meth in ("is_nan", "is_infinite"):
+            return [(True, BoolV(False))]
+        return None
+    return None
+
+
 def call(eng, st, fr, callee, args, argtys, dest_ty):
+    m = FLOATM.match(callee)
+    if m:
+        r = float_method(eng, st, m.group(1), [deref(eng, st, a) for a in args])
+        if r is not None:
+            return r
     m = NUM.match(callee)
     if m and m.group(1) in INT_TYPES:
         return num_method(eng, st, m.group(1), m.group(2), args)
@@ -107,6 +150,23 @@ def call(eng, st, fr, callee, args, argtys, dest_ty):
             eng.store_loc(s2, (ref.uid, ref.local, ref.path), Agg(ty, (IntV(ity, nxt), IntV(ity, e0))))
             return mk_some(ity, IntV(ity, s0))
         return [(more, take), (NOT(more), mk_none(ity))]
+    m = re.match(r"^core::slice::<impl \[(\w+)\]>::binary_search$", callee)
+    if m:
+        # documented contract on a strictly increasing slice: Ok(index of the equal element) or Err(insertion point)
+        arr = deref(eng, st, args[0])
+        x = deref(eng, st, args[1])
+        if not (isinstance(arr, Agg) and isinstance(x, IntV) and all(isinstance(f, IntV) and is_conc(f.e) for f in arr.fields)):
+            return None
+        vals = [f.e for f in arr.fields]
+        if any(vals[i] >= vals[i + 1] for i in range(len(vals) - 1)):
+            return None   # duplicates / unsorted: the result is unspecified by the documentation
+        mkres = lambda ok, i: EnumV("Result<usize, usize>", 0 if ok else 1, (IntV("usize", i),), "Ok" if ok else "Err")
+        outs = [(cmp_("eq", x.e, v), mkres(True, i)) for i, v in enumerate(vals)]
+        for k in range(len(vals) + 1):
+            lo = cmp_("gt", x.e, vals[k - 1]) if k > 0 else True
+            hi = cmp_("lt", x.e, vals[k]) if k < len(vals) else True
+            outs.append((AND(lo, hi), mkres(False, k)))
+        return outs
     # Option / Result helpers
     m = re.match(r"^(?:std::option::|core::option::)?Option::<(.*)>::(\w+)$", callee)
     if m:
